@@ -21,7 +21,7 @@ type config struct {
 func configs() []config {
 	return []config{
 		{"v4-reno-sack", netsim.PairCfg{V6: false, SACK: true, CC: "reno", MTU: 1500}},
-		{"v6-cubic-nosack", netsim.PairCfg{V6: true, SACK: false, CC: "cubic", MTU: 1500}},
+		{"v6-cubic-nosack", netsim.PairCfg{V6: true, SACK: false, CC: "cubic", MTU: 1500, BindAddr: true}},
 		// keep-alive with a 5 ms idle time on both endpoints: probes are answered, a healthy
 		// connection must never be given up (4 unanswered probes would be needed)
 		{"v4-reno-keepalive", netsim.PairCfg{V6: false, SACK: true, CC: "reno", MTU: 1500, KeepaliveMs: 5}},
@@ -29,7 +29,7 @@ func configs() []config {
 		// receive window plus half the data: the right edge of the peer's window crosses the
 		// wrap point while the data has not yet (the value is filled in by withRcvBuf)
 		{"v6-reno-window-edge-wraps-a", netsim.PairCfg{V6: true, SACK: true, CC: "reno", MTU: 1500, PlaceActive: true}},
-		{"v4-cubic-window-edge-wraps-b", netsim.PairCfg{V6: false, SACK: false, CC: "cubic", MTU: 1500, PlacePassive: true}},
+		{"v4-cubic-window-edge-wraps-b", netsim.PairCfg{V6: false, SACK: false, CC: "cubic", MTU: 1500, PlacePassive: true, BindAddr: true}},
 	}
 }
 
@@ -43,6 +43,7 @@ func scenarios() []Scenario {
 		{Kind: "oneway", AtoB: 100, BtoA: 0},
 		{Kind: "oneway", AtoB: 0, BtoA: 0},
 		{Kind: "idle", AtoB: 2000, BtoA: 300},
+		{Kind: "closeearly", AtoB: 5000, BtoA: 0},
 	}
 }
 
@@ -218,7 +219,7 @@ var forceWrap = os.Getenv("C02_FORCE_WRAP") == "1"
 
 func genCase(rt *rapid.T) Case {
 	var c Case
-	c.Sc.Kind = rapid.SampledFrom([]string{"oneway", "simultaneous", "halfclose", "zerowindow", "idle"}).Draw(rt, "kind")
+	c.Sc.Kind = rapid.SampledFrom([]string{"oneway", "simultaneous", "halfclose", "zerowindow", "idle", "closeearly"}).Draw(rt, "kind")
 	size := rapid.OneOf(rapid.IntRange(0, 3), rapid.IntRange(1, 3000), rapid.IntRange(3000, 40000))
 	c.Sc.AtoB = size.Draw(rt, "a_to_b")
 	c.Sc.BtoA = size.Draw(rt, "b_to_a")
@@ -236,6 +237,7 @@ func genCase(rt *rapid.T) Case {
 	c.Cfg.SACK = rapid.Bool().Draw(rt, "sack")
 	c.Cfg.CC = rapid.SampledFrom([]string{"reno", "cubic"}).Draw(rt, "cc")
 	c.Cfg.MTU = rapid.SampledFrom([]int{1280, 1500, 9000}).Draw(rt, "mtu")
+	c.Cfg.BindAddr = rapid.Bool().Draw(rt, "bind-addr")
 	c.Cfg.RcvBuf = rapid.SampledFrom([]int{0, 0, 0, 4096, 16384, 65536}).Draw(rt, "rcvbuf")
 	c.Cfg = withRcvBuf(c.Sc, c.Cfg)
 	// sequence-number placement: next to a wrap point, at most (bytes sent + receive window)
